@@ -624,7 +624,7 @@ func (app *App) handleTrustedProxy(ipAddress string) {
 		if ip == nil {
 			log.Warnf("IP address %q could not be parsed", ipAddress)
 		} else {
-			app.config.TrustProxyConfig.ips[ipAddress] = struct{}{}
+			app.config.TrustProxyConfig.ips[ip.String()] = struct{}{}
 		}
 	}
 }
